@@ -8,6 +8,23 @@ import json, os, re, time
 from vlib import *
 
 
+def tlaps_proof():
+    """The unbounded part: TLAPS proves for any number of workers and items that the combine sequence of the indexed
+    shape is a prefix of the serial one and that nothing is combined before the barrier (spec/proofs/ParMapProof.tla)."""
+    import subprocess
+    t = time.time()
+    r = subprocess.run(["timeout", "900", "tlapm", "--threads", "8", "-I", SPEC, "ParMapProof.tla"], cwd=os.path.join(SPEC, "proofs"),
+                       capture_output=True, text=True)
+    out = r.stdout + r.stderr
+    m = re.search(r"All (\d+) obligations proved", out)
+    if not m:
+        raise ToolError("TLAPS did not prove spec/proofs/ParMapProof.tla (a statement about the specification, not about the code):\n" + out[-2000:])
+    log("TLAPS proved ParMapProof: %s obligations in %.0fs" % (m.group(1), time.time() - t))
+    return {"module": "proofs/ParMapProof.tla", "obligations_proved": int(m.group(1)),
+            "theorems": ["IndexedSpec => []PrefixOfSerial", "IndexedSpec => []BarrierBeforeCombine", "KeyedSpec => []KeyedComplete"],
+            "scope": "any number of workers K and any number of items"}
+
+
 def run_c07(tier, replay=None):
     prop = "C07"
     t0 = time.time()
@@ -26,6 +43,7 @@ def run_c07(tier, replay=None):
             res = run_tlc("ParMap.tla", "ParMap_wrong.cfg", work.path("mc"), workers=2, timeout=600, heap="2g")
             if "PrefixOfSerial is violated" not in res["out"]:
                 raise ToolError("ParMap no longer refutes the combine-on-finish variant: its invariants are vacuous")
+            proof = tlaps_proof()
         trace = work.path("par.ndjson")
         sd = json.load(open(replay)).get("seed", 0) if replay else seed()
         th = json.load(open(replay)).get("thorough", 0) if replay else (1 if tier == "thorough" else 0)
@@ -71,6 +89,7 @@ def run_c07(tier, replay=None):
             "samples": [sample],
             "model_checking": {"module": "ParMap", "runs": mcs, "wrong_variant_refuted": True,
                                "properties": ["RunOnce", "BarrierBeforeCombine", "PrefixOfSerial", "KeyedComplete", "FinalIsSerial", "Terminates"]},
+            "tlaps_proof": proof if not replay else None,
             "direction1": {"par_call_events": calls, "concurrent_use_events": conc, "calls_expected_parallel": par,
                            "calls_observed_on_2_or_more_threads": multi, "hook_events_validated_as_ParMap_steps": hook_events,
                            "binding_lost": len(lost), "binding_lost_lines": lost[:5], "failed_checks": fails,
